@@ -286,6 +286,7 @@ def main(argv=None) -> int:
     twin_results = []
     seen_replay: Dict[str, dict] = {}
     class_count: Dict[str, int] = {}
+    class_repro: Dict[str, int] = {}
     skipped_same_class = 0
 
     for cube, r in zip(spec.cubes, results):
@@ -310,8 +311,9 @@ def main(argv=None) -> int:
             # candidates of one class (same group, same pre-signature) are replayed at most 3 times
             presig = json.dumps([cube.group, v.get("kind"), v.get("exc_type"), v.get("where"),
                                  (v.get("detail") or {}).get("sig") if isinstance(v.get("detail"), dict) else None], default=str)
+            # candidates of one class are replayed until 3 have reproduced (at most 12 replays per class)
             class_count[presig] = class_count.get(presig, 0) + 1
-            if class_count[presig] > 3:
+            if class_repro.get(presig, 0) >= 3 or class_count[presig] > 12:
                 skipped_same_class += 1
                 continue
             cand = {"property": pid, "cube": cube.name, "fn": cube.fn.__name__, "group": cube.group,
@@ -338,6 +340,7 @@ def main(argv=None) -> int:
                         f"{json.dumps(v['args'], default=str)[:300]} -> {rep.get('what')}"
                     )
             else:
+                class_repro[presig] = class_repro.get(presig, 0) + 1
                 sig = rep.get("signature", "?")
                 cand["signature"] = sig
                 if (pid, sig) in known_sigs:
